@@ -29,6 +29,12 @@
 #include <pthread.h>
 #include <semaphore.h>
 #include <unistd.h>
+#if defined(__has_feature)
+#if __has_feature(memory_sanitizer)
+#include <sanitizer/msan_interface.h>
+#define VH_MSAN 1
+#endif
+#endif
 
 /* ------------------------------------------------------------------ state */
 static FILE *out;
@@ -41,6 +47,7 @@ static sem_t sem_done, sem_go;
 static volatile bool done, logging = true, parked;
 static volatile int park_kind; /* 0 none, 1 stopstart requested */
 static long seam_calls_without_progress;
+static bool cur_keepopen; /* the cache keeps talking after it has received an Error Report */
 static volatile int cbpark_countdown; /* park the FSM thread inside the k-th table callback of this exchange */
 static volatile bool parked_in_cb;
 static sem_t sem_cb;
@@ -535,6 +542,7 @@ static void drain_sbuf(void)
 }
 static void conn_reset(void)
 {
+	cbpark_countdown = 0;
 	if (sbuf_n && !send_failed_on_conn) {
 		ev_begin("sendbad");
 		vh_bput(&evb, ",\"why\":\"incomplete PDU left on the connection\",\"hex\":\"");
@@ -653,6 +661,7 @@ static void begin_exchange(const uint8_t *q)
 	cur_item_i = 0;
 	cur_chunk = vj_int(ex, "chunk", 0);
 	cbpark_countdown = vj_int(ex, "parkcb", 0);
+	cur_keepopen = vj_int(ex, "keepopen", 0);
 	for (int i = 0; alts && i < alts->n; i++) {
 		struct vj *a = alts->items[i];
 		const char *aq = vj_str(a, "q", "any");
@@ -672,6 +681,17 @@ static int t_send(const void *s, const void *pdu, const size_t len, const time_t
 	seam();
 	flush_frame(false);
 	const uint8_t *p = pdu;
+#ifdef VH_MSAN
+	/* property C14: no byte handed to the transport stems from uninitialised memory */
+	if (__msan_test_shadow(pdu, len) != -1) {
+		ev_begin("sendbad");
+		vh_bput(&evb, ",\"why\":\"uninitialised byte at offset %ld of a %zu byte write\"", (long)__msan_test_shadow(pdu, len), len);
+		ev_end(false);
+		fflush(out);
+		fprintf(stderr, "UNINIT-SENT offset %ld len %zu type %u\n", (long)__msan_test_shadow(pdu, len), len, len > 1 ? p[1] : 255);
+		_exit(97);
+	}
+#endif
 	bool starts_query = sbuf_n == 0 && len >= 2 && (p[1] == 1 || p[1] == 2);
 	const char *rc = "ok";
 	int chunk = 0;
@@ -818,7 +838,7 @@ static int t_recv(const void *s, void *buf, const size_t len, const time_t timeo
 	if (fbuf_off >= fbuf_n) {
 		/* at a frame boundary */
 		flush_frame(true);
-		if (got_error_report) {
+		if (got_error_report && !cur_keepopen) {
 			/* the simulated cache closes the connection once it has received an Error Report */
 			ev_begin("rfault");
 			vh_bput(&evb, ",\"kind\":\"closed\",\"at\":\"hdr\",\"to\":%ld,\"adv\":0,\"aftererr\":true,", sat(timeout));
@@ -894,7 +914,7 @@ static int t_recv(const void *s, void *buf, const size_t len, const time_t timeo
 /* ------------------------------------------------------------------ callbacks */
 static void maybe_park_in_cb(void)
 {
-	if (cbpark_countdown > 0 && --cbpark_countdown == 0 && !done) {
+	if (cbpark_countdown > 0 && pthread_equal(pthread_self(), rsock.thread_id) && --cbpark_countdown == 0 && !done) {
 		/* the client is in the middle of applying a response (cancellation disabled): let the user
 		 * call rtr_stop() now; the stop's own SHUTDOWN state callback releases this thread again */
 		ev_begin("cbpark");
